@@ -27,6 +27,8 @@
   Node status: only BAD vs not-BAD is observable in this code (`status` is also the secondary sort key in
   closest_nodes, which never decides anything because distances of distinct ids are distinct).
 -/
+import Ipv8.C14.GenConst
+
 namespace Ipv8.C14
 
 abbrev Bits := List Bool
@@ -150,7 +152,7 @@ def owns (b : Bucket) (id : Bits) : Bool := b.pfx.isPrefixOf id
 def get (b : Bucket) (id : Bits) : Option Node := b.nodes.find? (fun x => x.id == id)
 
 /-- the rtt eviction test `node.rtt and n.rtt / node.rtt >= 2.0` (rtts are naturals here) -/
-def slower (newcomer : Node) (x : Node) : Bool := newcomer.rtt != 0 && x.rtt ≥ 2 * newcomer.rtt
+def slower (newcomer : Node) (x : Node) : Bool := newcomer.rtt != 0 && x.rtt ≥ Gen.rttRatio * newcomer.rtt
 
 /-- `Bucket.add`: new bucket and the returned boolean -/
 def add (m : Nat) (b : Bucket) (n : Node) : Bucket × Bool :=
@@ -282,12 +284,15 @@ def level (t : Trie Bucket) (excl : Option Bits) (q : Bits) : List Node :=
 /-- `nodes |= {...}` on duplicate-free lists -/
 def union (acc new : List Node) : List Node := acc ++ new.filter (fun x => !acc.contains x)
 
+/-- the break test `len(nodes) > max_nodes` (`strict`; the translator also accepts `>=`) -/
+def brk (strict : Bool) (len k : Nat) : Bool := if strict then len > k else len ≥ k
+
 /-- the loop `for i in reversed(range(len(prefix) + 1))` with its break -/
-def walk (t : Trie Bucket) (excl : Option Bits) (p : Bits) (k : Nat) : Nat → List Node → List Node
+def walk (strict : Bool) (t : Trie Bucket) (excl : Option Bits) (p : Bits) (k : Nat) : Nat → List Node → List Node
   | 0, acc => union acc (level t excl (p.take 0))
   | i + 1, acc =>
     let acc' := union acc (level t excl (p.take (i + 1)))
-    if acc'.length > k then acc' else walk t excl p k i acc'
+    if brk strict acc'.length k then acc' else walk strict t excl p k i acc'
 
 def closer (target : Bits) (a b : Node) : Bool := dist a.id target ≤ dist b.id target
 
@@ -296,7 +301,7 @@ def closest (rt : RT) (target : Bits) (k : Nat) (excl : Option Bits) : List Node
   let p := match rt.trie.lpi (fun _ => true) target with
     | some (p, _) => p
     | none => []
-  let cand := walk rt.trie excl p k p.length []
+  let cand := walk Gen.closestBreakStrict rt.trie excl p k p.length []
   (cand.mergeSort (closer target)).take k
 
 end RT
